@@ -1,5 +1,7 @@
 """C05  Expressions and control flow evaluate as the language defines  (Values.tla, Machine.tla, Gen.tla)."""
 import profcheck
+import scenarios
+import vlib
 
 PROP = "C05"
 CONTROL = ["print", "var", "set", "if", "else", "while", "for", "break", "continue", "block", "arith", "fn", "call", "return", "exprstmt"]
@@ -20,6 +22,11 @@ def main(tier, seed):
          "simulate": 3000 if q else 40000, "seed_offset": 7},
     ]
     rep = profcheck.run(PROP, tier, seed, plan, feature=lambda r: len(r["prog"]) >= 1)
+    # break / continue / return leaving loop bodies whose locals are partly captured by closures: the jump must discard
+    # exactly the right variables in exactly the right way (the closure scenario product of C06, loop wrappers only)
+    loops = [p for p in scenarios.capture_scenarios() + scenarios.capture_order_scenarios() if p[0].split(":")[1] in ("while", "for", "while-break", "for-continue")]
+    bins = [("dev", vlib.build_harness("dev")), ("release", vlib.build_harness("release"))]
+    profcheck.run_scenarios(rep, "loopexits", loops, bins, PROP)
     rep.coverage["exhaustive"] = True
     rep.coverage["rule"] = ("every expression of <= 4 (thorough 5) nodes over 13 operand values of every kind x 16 binary, 3 unary operators, "
                             "and/or, range (printed with minimal parentheses from the specification's precedence table); every control-flow "
